@@ -205,11 +205,18 @@ def judge(case):
             if bool(vBoolean.from_ical(t)) is not v:
                 out.append(Failure("C03.roundtrip", "roundtrip/bool", f"{v} -> {t!r}"))
         elif k == "binary":
-            s = case["v"]
-            t = grammar("binary", vBinary(s).to_ical(), out)
-            b = vBinary.from_ical(t)
-            if b != s.encode("utf-8") or base64.b64decode(t) != s.encode("utf-8"):
-                out.append(Failure("C03.roundtrip", "roundtrip/binary", f"{s!r} -> {t!r} -> {b!r}"))
+            if "hex" in case:          # arbitrary octets (the point of BINARY), not only encoded text
+                raw = bytes.fromhex(case["hex"])
+                t = grammar("binary", vBinary(raw).to_ical(), out)
+                b = vBinary.from_ical(t)
+                if b != raw or base64.b64decode(t) != raw:
+                    out.append(Failure("C03.roundtrip", "roundtrip/binary-octets", f"{raw!r} -> {t!r} -> {b!r}"))
+            else:
+                s = case["v"]
+                t = grammar("binary", vBinary(s).to_ical(), out)
+                b = vBinary.from_ical(t)
+                if b != s.encode("utf-8") or base64.b64decode(t) != s.encode("utf-8"):
+                    out.append(Failure("C03.roundtrip", "roundtrip/binary", f"{s!r} -> {t!r} -> {b!r}"))
         elif k == "geo":
             la, lo = float(case["lat"]), float(case["lon"])
             t = grammar("geo", vGeo((la, lo)).to_ical(), out)
@@ -453,7 +460,7 @@ def _hyp():
                    st.sampled_from(["SECONDLY", "MINUTELY", "HOURLY", "DAILY", "WEEKLY", "MONTHLY", "YEARLY"]), st.integers(0, 2))
     mo = st.builds(lambda m, k: {"t": "month", "v": [m, str(m), f"{m}L"][k]}, st.integers(1, 13), st.integers(0, 2))
     return st.one_of(td, td, ints, floats, floats, geo, dts, tms, per, per, st.booleans().map(lambda b: {"t": "bool", "v": b}),
-                     text.map(lambda s: {"t": "binary", "v": s}), uri.map(lambda s: {"t": "uri", "v": s}),
+                     text.map(lambda s: {"t": "binary", "v": s}), st.binary(max_size=80).map(lambda b: {"t": "binary", "hex": b.hex()}), uri.map(lambda s: {"t": "uri", "v": s}),
                      uri.map(lambda s: {"t": "caladdr", "v": s}), wd, fr, mo, grammar_texts(), grammar_texts(), grammar_texts())
 
 
